@@ -5,8 +5,13 @@ expressions on coordinates, field-wise precedence), not from the model's algorit
 shared vocabulary is the key (`joinKey`, `coalKey`), the `on` reduction of metadata and
 `isIncremental`.
 
-Hypothesis of all predicates: keys are distinct inside each operand.
-Order of the `pairs` list is irrelevant to `joinSpec` (Python: set-iteration order).
+Hypothesis of `joinSpec` / `mergeSpec` / `addStaticsSpec`: keys are distinct inside each operand.
+`joinSpecLast` / `mergeSpecLast` / `coalesceSpec` need NO hypothesis: with duplicate keys inside an
+operand (the normal case of `on` against a more granular triangle: slices that differ only outside
+`on` collapse) the cell at a coordinate is the LAST one with that key in the operand as join.py
+indexes it, i.e. after `_select_metadata` re-built it with `Triangle(...)` (`sortedOn`: stable sort
+by `Cell.__lt__`, the canonical order of C01 — shared vocabulary with the model, like the keys).
+Order of the `pairs` list is irrelevant to `joinSpec` / `joinSpecLast` (Python: set-iteration order).
 -/
 import Bermuda.Model.Join
 namespace Bermuda.Spec
@@ -67,6 +72,35 @@ def joinSpec (ty : JoinType) (on : Option (List String)) (a b : List Cell)
   -- set expression ⊆ returned coordinates
   (A ++ B).all (fun k => !setExpr ty A B k || ks.contains (some k))
 
+/-- the operand as join.py indexes it: with a non-empty `on` the reduced cells went through
+`Triangle(...)` (stable sort by `Cell.__lt__`); otherwise the operand itself -/
+def sortedOn (on : Option (List String)) (t : List Cell) : List Cell :=
+  match on with
+  | some (x :: xs) => (t.map (·.selectOn (x :: xs))).mergeSort Cell.le
+  | _ => t
+
+/-- the LAST cell of `t` at coordinate `k` (a dict comprehension keeps the last assignment) -/
+def cellAtLast (inc : Bool) (t : List Cell) (k : Coord) : Option Cell :=
+  (t.filter (fun c => joinKey inc c == k)).getLast?
+
+/-- **join, no hypothesis**: `pairs` has exactly one pair per coordinate of the relational set
+expression, and the pair at coordinate `k` is (the last cell of the left operand at `k`, the last
+cell of the right operand at `k`) in the order of `sortedOn` — under distinct keys this is
+`joinSpec`; with collapsed slices it says WHICH of the collapsed cells is carried. -/
+def joinSpecLast (ty : JoinType) (on : Option (List String)) (a b : List Cell)
+    (pairs : List CellPair) : Bool :=
+  let a' := sortedOn on a
+  let b' := sortedOn on b
+  let inc := isIncremental a
+  let A := (onCells on a).map (joinKey inc)
+  let B := (onCells on b).map (joinKey inc)
+  let ks := pairs.map (pairKey? inc)
+  nodupB ks &&
+  pairs.all (fun p => match pairKey? inc p with
+    | some k => setExpr ty A B k && p.1 == cellAtLast inc a' k && p.2 == cellAtLast inc b' k
+    | none => false) &&
+  (A ++ B).all (fun k => !setExpr ty A B k || ks.contains (some k))
+
 /-- `out` has the same non-value attributes as `c` -/
 def sameFrame (c out : Cell) : Bool :=
   c.kind == out.kind && c.ps == out.ps && c.pe == out.pe && c.ev == out.ev && c.prev == out.prev &&
@@ -101,7 +135,28 @@ def mergeSpec (ty : JoinType) (on : Option (List String)) (a b out : List Cell) 
     | none, none => false) &&
   (A ++ B).all (fun k => !setExpr ty A B k || ks.contains k)
 
-/-- hypothesis of `coalesceSpec`: inside each triangle coordinates are distinct -/
+/-- **merge, no hypothesis**: as `mergeSpec`, the cell of an operand at a coordinate being the LAST
+one with that key in `sortedOn` order. -/
+def mergeSpecLast (ty : JoinType) (on : Option (List String)) (a b out : List Cell) : Bool :=
+  let a' := sortedOn on a
+  let b' := sortedOn on b
+  let inc := isIncremental a
+  let A := (onCells on a).map (joinKey inc)
+  let B := (onCells on b).map (joinKey inc)
+  let ks := out.map (joinKey inc)
+  nodupB ks &&
+  out.all (fun c =>
+    let k := joinKey inc c
+    setExpr ty A B k &&
+    match cellAtLast inc a' k, cellAtLast inc b' k with
+    | some x, some y => sameFrame x c && isRightUnion x.values y.values c.values
+    | some x, none => c == x
+    | none, some y => c == y
+    | none, none => false) &&
+  (A ++ B).all (fun k => !setExpr ty A B k || ks.contains k)
+
+/-- inside each triangle coordinates are distinct — NOT a hypothesis of `coalesceSpec` (which holds
+of the model unconditionally, `coalesceSpec_of_coalesce`); reported by the driver as information -/
 def coalesceHyp (ts : List (List Cell)) : Bool := ts.all (fun t => nodupB (t.map coalKey))
 
 /-- **coalesce**: one cell per coordinate occurring in any triangle, namely the (unmodified)
